@@ -32,6 +32,8 @@ func init() {
 	Registry["C14"] = C14
 	Registry["C06"] = C06
 	Registry["C07"] = C07
+	Registry["C04"] = C04
+	Registry["C17"] = C17
 }
 
 func init() { Registry["C13"] = C13 }
